@@ -365,7 +365,7 @@ type Observed struct {
 
 func cOutcome(o Observed) string {
 	if o.Stage != "ok" {
-		return "(Rejected " + cBool(o.Stage == "panic") + ")"
+		return "(Rejected " + cBool(o.Stage == "panic" || o.Stage == "died" || o.Stage == "hang") + ")"
 	}
 	return fmt.Sprintf("(Compiled %s %s %s)", cList(o.Dump.Items, cItem), cBool(o.SysUnchanged), cBool(o.Deterministic))
 }
